@@ -454,6 +454,14 @@ func ruleStreamOwner(c *core.Ctx, a *epAnchors) {
 			key := fmt.Sprintf("raw-%s@%s#%d", m, core.FuncKey(fn), i)
 			k := core.FuncKey(fn)
 			allowed := k == "type/basic.ReadN" || k == "type/basic.WriteN"
+			if fn.Parent() != nil {
+				// the transfer written as a function literal of ReadN / WriteN and handed to
+				// the loop (that the loop retries it is the retry-loop rule's business)
+				pk := core.FuncKey(fn.Parent())
+				if (pk == "type/basic.ReadN" || pk == "type/basic.WriteN") && fn.Parent().Parent() == nil {
+					allowed = true
+				}
+			}
 			if !allowed && fn.Signature.Recv() != nil && fn.Name() == m {
 				// forwarder method of a Stream implementation
 				allowed = true
